@@ -137,6 +137,18 @@ def expectation(doc, ep, vec):
             exp["body_json"] = [x[2] for x in bv[1]]
         elif bv[0] == "list" and all(x[0] == "date" for x in bv[1]):
             exp["body_json"] = [x[1] for x in bv[1]]
+        if ct.startswith("multipart/") and bv[0] == "model":
+            fields = {}
+            for k, v in bv[2].items():
+                if isinstance(v, (dict, list)):
+                    fields[k] = (v, "application/json")
+                elif v is None:
+                    continue
+                else:
+                    fields[k] = (epwork.wire_str(("j", v)).encode() if not isinstance(v, bool) else str(v).encode(), "text/plain")
+            exp["multipart_fields"] = fields
+        if ct == "application/octet-stream" and bv[0] == "file":
+            exp["raw_body_hex"] = bv[1]
     exp["security"] = bool(o.get("security"))
     return exp
 
@@ -205,6 +217,49 @@ def check_request(exp, call):
                         bad.append(f"form body {sent!r} != {want!r}")
             except Exception as e:
                 bad.append(f"body not decodable as {ct}: {e!r}")
+    if exp.get("content_type", "").startswith("multipart/") and "multipart_fields" in exp:
+        ct = (h.get("content-type") or [""])[0]
+        if not ct.startswith("multipart/form-data; boundary="):
+            bad.append(f"Content-Type {ct!r} is not multipart/form-data with a boundary")
+        else:
+            bnd = ct.split("boundary=")[1].encode()
+            raw = bytes.fromhex(r["content_hex"])
+            got = {}
+            for part in raw.split(b"--" + bnd):
+                if b"\r\n\r\n" not in part:
+                    continue
+                head, body = part.split(b"\r\n\r\n", 1)
+                body = body[:-2] if body.endswith(b"\r\n") else body
+                name = None
+                pct = None
+                for line in head.split(b"\r\n"):
+                    if line.lower().startswith(b"content-disposition") and b'name="' in line:
+                        name = line.split(b'name="')[1].split(b'"')[0].decode("utf-8", "replace")
+                    if line.lower().startswith(b"content-type:"):
+                        pct = line.split(b":", 1)[1].strip().decode()
+                if name is not None:
+                    got[name] = (body, pct)
+            for name, (want, wct) in exp["multipart_fields"].items():
+                if name not in got:
+                    bad.append(f"multipart field {name!r} missing")
+                else:
+                    b_, pct = got[name]
+                    if wct == "application/json":
+                        try:
+                            if json.loads(b_) != want:
+                                bad.append(f"multipart field {name!r}: {b_[:80]!r} != {want!r}")
+                        except Exception:
+                            bad.append(f"multipart field {name!r} is not JSON: {b_[:80]!r}")
+                    elif b_ != want:
+                        bad.append(f"multipart field {name!r}: {b_[:80]!r} != {want!r}")
+            for name in got:
+                if name not in exp["multipart_fields"]:
+                    bad.append(f"undeclared multipart field {name!r} sent")
+    if exp.get("raw_body_hex") is not None:
+        if r["content_hex"] != exp["raw_body_hex"]:
+            bad.append(f"raw body {r['content_hex'][:60]} != {exp['raw_body_hex'][:60]}")
+        if h.get("content-type") != [exp["content_type"]]:
+            bad.append(f"Content-Type {h.get('content-type')!r} != declared {exp['content_type']!r}")
     if exp["security"]:
         if h.get("authorization") != ["Bearer tok123"]:
             bad.append(f"credential header missing/wrong: {h.get('authorization')!r}")
@@ -285,6 +340,9 @@ def run(run, tier, replay=None):
                 what = f"operation {c['op']} of '{results[di]['label']}' with args {json.dumps(c['vec'])[:160]}: {json.dumps(call.get('exc') or call.get('fatal_op'))[:200]}"
                 if exp.get("non_ascii_header") and (call.get("exc") or {}).get("type") == "UnicodeEncodeError":
                     continue
+                if which == "async" and (call.get("exc") or {}).get("type") == "RuntimeError" and "sync request with an AsyncClient" in (call.get("exc") or {}).get("msg", "") \
+                        and c["kw"].get("kwargs", {}).get("content") is not None and run.known_finding("octet_body_async", what):
+                    continue
                 if "exc" in c["kw"]:
                     # _get_kwargs itself raises: the model predicts it (stage B agrees) - e.g. encoder given a value outside its domain
                     continue
@@ -308,7 +366,16 @@ def run(run, tier, replay=None):
         # sync == asyncio
         rs, ra = c["sync"].get("requests"), c["async"].get("requests")
         if rs and ra:
-            strip = lambda r: {k: v for k, v in r[0].items() if k != "headers"} | {"headers": sorted([h for h in r[0]["headers"] if h[0].lower() not in ("user-agent",)])}
+            def strip(r):
+                x = dict(r[0])
+                b = None
+                for k, v in x["headers"]:
+                    if k.lower() == "content-type" and "boundary=" in v:
+                        b = v.split("boundary=")[1]
+                x["headers"] = sorted([[k, (v.replace(b, "BOUNDARY") if b else v)] for k, v in x["headers"] if k.lower() not in ("user-agent",)])
+                if b:
+                    x["content_hex"] = x["content_hex"].replace(b.encode().hex(), b"BOUNDARY".hex())
+                return x
             if strip(rs) != strip(ra):
                 run.violation("oracle", {"label": results[di]["label"], "doc": results[di]["doc"], "op": c["op"], "args": c["vec"], "sync": rs, "asyncio": ra,
                                          "note": "blocking and asyncio variants sent different requests"})
